@@ -82,7 +82,7 @@ type Explorer struct {
 
 	stats     Stats
 	events    []Event
-	siteSeen  map[string]bool // violation sites already reported
+	siteSeen  map[string]int // events already reported per violation site
 	assertLbl map[string]int  // label -> times discharged
 	samples   []string
 
@@ -109,7 +109,7 @@ type Explorer struct {
 var curEx *Explorer
 
 func newExplorer(i *interpreter, s *Solver) *Explorer {
-	ex := &Explorer{i: i, solver: s, siteSeen: map[string]bool{}, assertLbl: map[string]int{}, oblSites: map[string]int{}}
+	ex := &Explorer{i: i, solver: s, siteSeen: map[string]int{}, assertLbl: map[string]int{}, oblSites: map[string]int{}}
 	ex.stats.AbandonReasons = map[string]int{}
 	curEx = ex
 	return ex
@@ -421,10 +421,12 @@ type runConfig struct {
 func (ex *Explorer) violation(kind, msg, site, label string, stack []string, extra *Term) {
 	key := kind + "|" + site + "|" + label
 	ex.stats.Violating++
-	if ex.siteSeen[key] {
+	// up to three counterexamples per obligation site (different paths): a model of an
+	// uninterpreted stub may not be realisable natively, another path's model may be
+	if ex.siteSeen[key] >= 3 {
 		return
 	}
-	ex.siteSeen[key] = true
+	ex.siteSeen[key]++
 	ins, ok := ex.model(extra)
 	ev := Event{Kind: kind, Msg: msg, Site: site, Label: label, Stack: stack, Inputs: ins, Path: ex.stats.Paths, ModelOK: ok,
 		Notes: append([]string(nil), ex.notes...)}
